@@ -24,10 +24,11 @@ from vlib import flit, fme
 MANIFEST = dict(
     text="Machine-checked (Coq 8.16): for ALL registries and ALL strings, Adsorbate.find depends only on the lower-cased string, returns the "
          "first match, and returns adsorbate a (and the isotherm setter links to a) whenever the lower-cased string is an alias of exactly "
-         "one adsorbate; a constructed adsorbate answers to its own name in any case. For THIS tree (176 adsorbates, 818 alias strings, 81 "
+         "one adsorbate; a constructed adsorbate answers to its own name in any case. For THIS tree (176 adsorbates, 817 alias strings, 81 "
          "with backend; data regenerated from adsorbates.json and default.db on every run) exhaustively by vm_compute: JSON list and database "
-         "agree after normalisation, names distinct, all ASCII, every alias in any letter case resolves to its adsorbate and designates only "
-         "it - EXCEPT 'cyclopentane' (alias_unique_refuted: carried by cyclopropane and cyclopentane; *_partial theorems cover the other 817). "
+         "agree after normalisation, names distinct, all ASCII, every name and every alias in any letter case resolves to its adsorbate "
+         "(find AND the isotherm setter) and designates only it - no string exempted (alias_resolves, name_resolves, alias_unique, "
+         "string_designates_at_most_one; the former collision 'cyclopentane' is fixed in the data). "
          "Thermodynamic half, partial: the 12 property methods are regenerated from adsorbate.py and proved equal to a hand-written "
          "three-way spec (backend value x SI factor | user property x factor | CalculationError - no fourth outcome), the unit argument is "
          "c_unit from Pa (= p / pa_per u for the 8 units, ParameterError otherwise), C01's adsorbate oracle is the generated method, and IF the "
@@ -50,7 +51,6 @@ METHOD_ORDER = ['molar_mass', 'p_triple', 't_triple', 'p_critical', 't_critical'
                 'liquid_density', 'liquid_molar_density', 'gas_density', 'gas_molar_density', 'enthalpy_vaporisation(T)',
                 'enthalpy_vaporisation(press)', 'enthalpy_liquefaction(T,press)', 'pressure_saturation', 'liquid_density(calculate=False)'] + \
                ['saturation_pressure(unit=%s)' % u for u in PUNITS + ['bogus']]
-COLLISION = 'cyclopentane'
 
 
 def cs(s):
@@ -81,8 +81,6 @@ def variants(s, rnd):
 
 
 def classify_resolution(s):
-    if s.lower() == COLLISION:
-        return 'C20:alias-cyclopentane-collision'
     return 'C20:unclassified:resolution:%s' % s.lower()[:30]
 
 
@@ -375,6 +373,43 @@ def thermo_part(rep, tier, seed, L):
             if p1 is not None and p2 is not None and T2 > T1 and not p2 > p1:
                 rep.failure('C20:unclassified:thermo:monotone:%s' % name, 'saturation pressure of %r does not rise: p(%r)=%r, p(%r)=%r' % (name, T1, p1, T2, p2),
                             {'kind': 'thermo', 'adsorbate': name, 'T': T2, 'clause': 'monotone'})
+    # the property methods of one (shared, registry) adsorbate object called in ANY order, interleaving two temperatures: every value
+    # must be the one that was judged above (a number that depends on which method ran before is a silent wrong number: it cannot
+    # satisfy density = molar density x molar mass / the saturation-line clauses that the reference value satisfies)
+    n_inter = 0
+    by_ads = {}
+    for ci, (label, a, T, _) in enumerate(cases):
+        if label == 'backend':
+            by_ads.setdefault(id(a), []).append(ci)
+    TM = [5, 6, 7, 8, 9, 10, 11, 12]     # indices in METHOD_ORDER of the methods that flash the backend state
+    for cis in by_ads.values():
+        if len(cis) < 2:
+            continue
+        c1, c2 = rnd.sample(cis, 2)
+        a = cases[c1][1]
+        seq = []
+        for step in range(14 if tier == 'quick' else 40):
+            ci = rnd.choice((c1, c2))
+            mi = rnd.choice(TM)
+            T = cases[ci][2]
+            ref = impls[ci][mi]
+            if mi == 12:
+                ps_ = impls[ci][5]
+                P = ps_[1] if ps_[0] == 'Ok' and finite(ps_[1]) and ps_[1] > 0 else 101325.0
+                got = call(a.enthalpy_vaporisation, press=P)
+            else:
+                got = call([a.saturation_pressure, a.surface_tension, a.liquid_density, a.liquid_molar_density, a.gas_density, a.gas_molar_density,
+                            a.enthalpy_vaporisation][mi - 5], T)
+            seq.append([METHOD_ORDER[mi], T])
+            n_inter += 1
+            same = got[0] == ref[0] and (got[0] != 'Ok' or (finite(got[1]) and finite(ref[1]) and abs(got[1] - ref[1]) <= 1e-9 * abs(ref[1])) or (not finite(got[1]) and not finite(ref[1])))
+            if not same:
+                rep.failure('C20:unclassified:thermo:history-dependent:%s' % METHOD_ORDER[mi],
+                            '%s of %r at T=%r returns %r after the calls %s; the same call gave %r before (the value that satisfies the consistency clauses)' % (
+                                METHOD_ORDER[mi], a.name, T, got, seq[-4:-1], ref),
+                            {'kind': 'thermo-sequence', 'adsorbate': a.name, 'T': T, 'sequence': seq, 'expected': list(ref)})
+                break
+    hist['interleaved-calls'] = n_inter
     # unit argument against the SI specification (pa_per), evaluated in Coq
     uterms, ucases = [], []
     for ci, ((label, a, T, _), impl) in enumerate(zip(cases, impls)):
@@ -397,7 +432,7 @@ def thermo_part(rep, tier, seed, L):
     rep.cov['thermo'] = {'cases': len(cases), 'method_calls': sum(len(i) for i in impls), 'backend_adsorbates': len(backend_ads),
                          'temperatures_per_backend_adsorbate': len(fracs) + (1 if tier == 'quick' else 3), 'disagreements_with_model': n_dis,
                          'unit_argument_cases': len(ucases) * 8}
-    return sum(len(i) for i in impls) + len(ucases) * 8, nontrivial, hist
+    return sum(len(i) for i in impls) + len(ucases) * 8 + n_inter, nontrivial, hist
 
 
 def run(rep, tier, seed):
@@ -420,13 +455,13 @@ def explore(rep, tier, seed, L):
                        'non-trivial = distinct (adsorbate, alias) resolved correctly + distinct (backend adsorbate, T) on which all consistency clauses were evaluated')
     h1.update(h2)
     rep.cov['input_distribution'] = h1
-    rep.cov['samples'] += [{'find': 'NiTrOgEn', 'result': 'nitrogen'}, {'alias_collision': COLLISION, 'owners': ['cyclopropane', 'cyclopentane']}]
+    rep.cov['samples'] += [{'find': 'NiTrOgEn', 'result': 'nitrogen'}, {'find': 'CYCLOPENTANE', 'result': 'cyclopentane'}]
     rep.cov['trusted_base'] += ['translators tools/py2v_adsorbates.py, tools/py2v_adsmethods.py (validated by the correspondences above)',
                                 'oracle: CoolProp AbstractState / PropsSI (values validated, not proved)', 'sqlite3 / json loaders of pygaps.data',
                                 'ASCII lower-casing (Lib/Py.v lower) = str.lower on ASCII strings (translator refuses non-ASCII data)']
     rep.assumptions += ['CoolProp satisfies rhomass = rhomolar*molar_mass, p_triple <= p_sat <= p_critical, monotone p_sat, h_vap > 0 (validated on this run, not proved)',
                         'a backend read is a function of the last update in the same method (translator enforces update-before-read)',
-                        'registry theorems are about THIS tree: 176 adsorbates, 818 alias strings (regenerated on every run)']
+                        'registry theorems are about THIS tree: 176 adsorbates, 817 alias strings (regenerated on every run)']
 
 
 def replay(d):
@@ -451,6 +486,19 @@ def replay(d):
         if T is not None:
             for n, (oc, v) in zip(METHOD_ORDER, run_methods(a, T, 101325.0)):
                 print('%-40s %s %r' % (n, oc, v))
+        return 1
+    if r['kind'] == 'thermo-sequence':
+        a = pygaps.Adsorbate.find(r['adsorbate'])
+        fns = {'saturation_pressure': a.saturation_pressure, 'surface_tension': a.surface_tension, 'liquid_density': a.liquid_density,
+               'liquid_molar_density': a.liquid_molar_density, 'gas_density': a.gas_density, 'gas_molar_density': a.gas_molar_density,
+               'enthalpy_vaporisation(T)': a.enthalpy_vaporisation}
+        for name, T in r['sequence']:
+            if name == 'enthalpy_vaporisation(press)':
+                ps = call(a.saturation_pressure, T)
+                print('%-32s T=%-10r' % (name, T), call(a.enthalpy_vaporisation, press=(ps[1] if ps[0] == 'Ok' else 101325.0)))
+            else:
+                print('%-32s T=%-10r' % (name, T), call(fns[name], T))
+        print('last call expected:', r.get('expected'))
         return 1
     print(r)
     return 1
